@@ -3,8 +3,8 @@ use super::reader::Reader;
 use crate::wal::block::Block;
 use crate::wal::block::Metadata;
 use crate::wal::config::{
-    DEFAULT_BLOCK_SIZE, FsyncSchedule, MAX_BATCH_BYTES, MAX_BATCH_ENTRIES, PREFIX_META_SIZE,
-    debug_print,
+    DEFAULT_BLOCK_SIZE, FsyncSchedule, MAX_ALLOC, MAX_BATCH_BYTES, MAX_BATCH_ENTRIES,
+    PREFIX_META_SIZE, debug_print,
 };
 #[cfg(target_os = "linux")]
 use crate::wal::config::{USE_FD_BACKEND, checksum64};
@@ -67,6 +67,14 @@ impl Writer {
         })?;
 
         let need = (PREFIX_META_SIZE as u64) + (data.len() as u64);
+        // An entry that no block can hold is rejected before any state changes: sealing first and
+        // failing in `alloc_block` would leave the sealed block current, to be chained a second time.
+        if need > MAX_ALLOC {
+            return Err(std::io::Error::new(
+                std::io::ErrorKind::InvalidInput,
+                "invalid allocation size, a single entry can't be more than 1gb",
+            ));
+        }
         if *cur + need > block.limit {
             debug_print!(
                 "[writer] sealing: col={}, block_id={}, used={}, need={}, limit={}",
@@ -160,6 +168,17 @@ impl Writer {
             return Err(std::io::Error::new(
                 std::io::ErrorKind::InvalidInput,
                 "batch exceeds 10GB limit",
+            ));
+        }
+
+        // As in `write`: an entry that no block can hold is rejected before any state changes.
+        if batch
+            .iter()
+            .any(|data| (PREFIX_META_SIZE as u64) + (data.len() as u64) > MAX_ALLOC)
+        {
+            return Err(std::io::Error::new(
+                std::io::ErrorKind::InvalidInput,
+                "invalid allocation size, a single entry can't be more than 1gb",
             ));
         }
 
